@@ -252,6 +252,8 @@ func genPrefix(s *sys) *rapid.Generator[[2]uint32] {
 func TestStateMachine(t *testing.T) {
 	rt.Check(t, 1500, 250000, func(t *rapid.T) {
 		s := newSys()
+		var other *sys
+		usedOther := false
 		fail := func(msg string) {
 			if msg != "" {
 				t.Fatalf("%s\nhistory: %s", msg, s.render())
@@ -373,6 +375,39 @@ func TestStateMachine(t *testing.T) {
 				afterStep(touched...)
 				fail(s.probeAll())
 			},
+			"otherFilter": func(t *rapid.T) {
+				// a second, independent filter in the same process (with a model of its own): what is done to one of
+				// them never shows in the other - no state is shared between IPv4Filter values
+				if other == nil {
+					other = newSys()
+				}
+				n := rapid.SampledFrom([]int{1, 3, 40, 300}).Draw(t, "n")
+				base := rapid.Uint32().Draw(t, "base")
+				ones := rapid.IntRange(0, 32).Draw(t, "ones")
+				rm := rapid.IntRange(0, 3).Draw(t, "remove") == 0
+				var last prefix
+				for i := 0; i < n; i++ {
+					raw := base
+					if ones > 0 {
+						raw = base + uint32(i)<<(32-ones)
+					}
+					var msg string
+					if rm {
+						msg = other.remove(raw, ones)
+					} else {
+						msg = other.add(raw, ones)
+					}
+					if msg != "" {
+						t.Fatalf("second filter: %s\nits history: %s\nhistory of the first: %s", msg, other.render(), s.render())
+					}
+					last = prefix{raw & mask(ones), ones}
+				}
+				if msg := other.probePrefix(last); msg != "" {
+					t.Fatalf("second filter: %s\nits history: %s\nhistory of the first: %s", msg, other.render(), s.render())
+				}
+				usedOther = true
+				afterStep()
+			},
 			"invalid": func(t *rapid.T) {
 				fail(s.invalid(rapid.IntRange(0, 50).Draw(t, "which"), rapid.Bool().Draw(t, "remove")))
 				fail(s.probeAll()) // nothing changed
@@ -382,6 +417,12 @@ func TestStateMachine(t *testing.T) {
 			},
 		})
 		fail(s.probeAll())
+		if usedOther {
+			if msg := other.probeAll(); msg != "" {
+				t.Fatalf("second filter: %s\nits history: %s\nhistory of the first: %s", msg, other.render(), s.render())
+			}
+			ev.Label("history:a_second_filter_was_used_alongside")
+		}
 		if s.crossed {
 			ev.Label("history:crossed_256")
 		}
